@@ -180,3 +180,27 @@ CHECKS["C10"] = {
     ],
     "prepare": {"armglue": [["python3", "{verif}/tools/prep_armglue.py", "{repo}"]]},
 }
+
+CHECKS["C07"] = {
+    "level": "exploration",
+    "assumptions": ["authenticity is decided by a reference GCM (standard library generic GCM over sm4ref, cross-checked against gcmref per base message; gcmref itself where needed)",
+                    "single-fault mutations of a finite set of base messages"],
+    "parts": [
+        {"name": "open", "pkg": "sm4", "run": "TestVX_C07", "public_files": SM4P + ["sm4/C10_pub_test.go", "sm4/C06_pub_test.go", "sm4/C07_pub_test.go"], "shards": 16, "env": {"VX_PART": "seal"}},
+        {"name": "open-armglue", "variant": "armglue", "pkg": "sm4", "run": "TestVX_C07",
+         "public_files": SM4P + ["sm4/C10_pub_test.go", "sm4/C06_pub_test.go", "sm4/C07_pub_test.go"], "shards": 16, "env": {"VX_PART": "open-armglue"}},
+    ],
+    "prepare": {"armglue": [["python3", "{verif}/tools/prep_armglue.py", "{repo}"]]},
+    "deadline": {"quick": 200, "thorough": 3000},
+}
+
+CHECKS["C11"] = {
+    "level": "exploration",
+    "assumptions": ["page protection of the kernel + runtime/debug.SetPanicOnFault turn a stray access into a recoverable panic with Addr()",
+                    "an access that stays inside a neighbouring mapped object is only visible in the flush placements, which is why every length is placed flush"],
+    "parts": [
+        {"name": "guard-asm", "pkg": "sm4", "run": "TestVX_C11_Asm", "kind": "internal", "files": ["sm4/C11_int_test.go"], "shards": 4},
+        {"name": "guard-public", "pkg": "sm4", "run": "TestVX_C11", "public_files": SM4P + ["sm4/C10_pub_test.go", "sm4/C11_pub_test.go"], "shards": 16, "env": {"VX_PART": "seal"}},
+    ],
+    "deadline": {"quick": 200, "thorough": 2400},
+}
